@@ -62,6 +62,14 @@ def fixed_cases():
     for d in (1, 5, 9, 10, 11, 18, 19, 20, 30):
         add({'m': 'x := ' + '9' * d + '; IF x = ' + '7' * d + ' THEN GOTO l; l: x := x + ' + '8' * d}, 'm', 'numeral')
         add({'m': 'DEFINE PRIO ' + '9' * d + ' foo AS x := 1 END DEFINE foo'}, 'm', 'numeral')
+    for big in ('2147483647', '2147483648', '4294967295', '4294967296', '9223372036854775807', '99999999999999999999'):
+        add({'m': 'DEFINE foo AS x := $%s END DEFINE foo' % big}, 'm', 'insertion_index')
+        add({'m': 'DEFINE foo <V> AS x := $%s END DEFINE foo 3' % big}, 'm', 'insertion_index')
+        add({'m': 'DEFINE foo <V> <V> AS x := $1 ; y := $%s END DEFINE foo 3 4; z := 1' % big}, 'm', 'insertion_index')
+    add({'m': 'DEFINE foo RUN <ID> WITH <ARGS> END AS $0 := RUN $0 WITH END END DEFINE\nfoo x1 + 1'}, 'm', 'hidden_tokens')
+    add({'m': 'DEFINE bar <V> AS RUN nosuch WITH $0 END END DEFINE\nx := bar y - 2'}, 'm', 'hidden_tokens')
+    add({'m': 'DEFINE PRIO 2000000 <ID> + <INT> AS RUN nosuch WITH END END DEFINE\nx := y + 1'}, 'm', 'hidden_tokens')
+    add({'m': 'DEFINE zap RUN <ID> WITH <ARGS> END AS GOTO $0 END DEFINE\nzap x1 + 1'}, 'm', 'hidden_tokens')
     add({'m': '$0 #1 <P> <ARGS> x := $3'}, 'm', 'stray')
     add({'m': 'x := <V>; #0 := 1'}, 'm', 'stray')
     dfn = 'DEFINE PRIO 3 IF <V> THEN <P> ELSE <P> FI AS #0 := $0 ; LOOP #0 DO $1 END ; $2 END DEFINE x := 1'
